@@ -99,6 +99,14 @@ def call_builtin(eng, name, args, kwargs, line, fr):
                 # executable code: case split (keeps if-then-else terms out of integrality / rounding goals)
                 res = y if eng.branch(c, name) else res
         return res
+    if name == "divmod":
+        x = bm.as_num(eng, eng.deref(args[0], "TypeError", line), line)
+        y = bm.as_num(eng, eng.deref(args[1], "TypeError", line), line)
+        if x.sort == INT and y.sort == INT:
+            return bm.make_tuple([bm.arith(eng, "FloorDiv", x, y, line), bm.arith(eng, "Mod", x, y, line)])
+        dec = "dec" if (x.aux == "dec" or y.aux == "dec") else None
+        q, r = bm.real_divmod(eng, x.t, y.t, dec, line)
+        return bm.make_tuple([q, r])
     if name == "abs":
         x = eng.deref(args[0], "TypeError", line)
         if is_conc_num(x.t):
@@ -599,10 +607,10 @@ def call_external(eng, f, args, kwargs, line):
     if full in ("decimal.Decimal",):
         v = args[0]
         if isinstance(v, SV) and v.sort in (REAL, INT):
-            return SV(REAL, v.t if not isinstance(v.t, int) else Fraction(v.t)) if is_conc_num(v.t) else SV(REAL, zreal(v.t))
+            return SV(REAL, v.t if not isinstance(v.t, int) else Fraction(v.t), "dec") if is_conc_num(v.t) else SV(REAL, zreal(v.t), "dec")
         if isinstance(v, SV) and v.sort == ATOM and v.aux is not None:
             x = v.aux
-            return SV(REAL, x.t if is_conc_num(x.t) else zreal(x.t))
+            return SV(REAL, x.t if is_conc_num(x.t) else zreal(x.t), "dec")
         raise EngineLimit("Decimal(%s)" % (v,))
     if full.endswith("datetime.datetime.utcnow") or full.endswith("datetime.utcnow"):
         return eng.spec.clock_now(eng)
